@@ -202,6 +202,14 @@ def work(job):
                                 break
                             compare(r, fresh, variant, hist, 'reused engine after the caller replaced the text', cur, f2, ext, lang, rep.out if rep.status == 0 else None, 'slot %d' % sl)
                             reused = True
+                        elif a < 0.72:
+                            # the caller switches the language on the engine: the next conversion must look like a fresh one in that language
+                            lang = rng.choice(gen.LANGS)
+                            rq = D.req_to_json(variant, 'ENGINE', 0, 0, lang, sl | (10 << 4), [b''])
+                            hist.append(rq)
+                            if s.call(variant, *D.req_from_json(rq), history=hist[:-1], crash_is_violation=False) is None:
+                                break
+                            r.stats['engine_language_switched'] += 1
                         elif a < 0.75:
                             rq = D.req_to_json(variant, 'ENGINE', 0, 0, 0, sl | (rng.choice([4, 5, 8]) << 4), [b''])
                             hist.append(rq)
